@@ -28,6 +28,22 @@ class MetaFrameModel:
             if name == "to_dicts":
                 I.ctx.assume_lib(self.assumed[0])
                 return st.alloc(FrameObj(o.n, o.cols, fresh=True))
+            if name == "append":
+                # a list of row dicts under construction (struct-of-arrays): append one record
+                from ..values import DictObj, to_z3
+                rec = st.obj(args[0]) if isinstance(args[0], Ref) else None
+                if not isinstance(rec, DictObj) or set(rec.items) != set(o.cols):
+                    from ..state import OutOfSubset
+                    raise OutOfSubset("append of a record with other keys to a row list")
+                for k, v in rec.items.items():
+                    zv = to_z3(v)
+                    rng = o.cols[k].sort().range()
+                    if zv.sort() != rng:
+                        from ..state import OutOfSubset
+                        raise OutOfSubset(f"row field {k}: sort {zv.sort()} vs column sort {rng}")
+                    o.cols[k] = z3.Store(o.cols[k], o.n, zv)
+                o.n = z3.simplify(o.n + 1)
+                return None
         return NI
 
 
